@@ -1324,3 +1324,79 @@ func ruleRegexpEscapeState(c *Ctx, r *Report) {
 		r.Und("util.fixYangRegexp:final-dollar", c.Pos(f.Decl.Pos()), "no decision about the final '$' found")
 	}
 }
+
+// ---- R-UNION-EMPTY (C19, C20) ------------------------------------------------------------------
+
+// ruleUnionEmpty: a YANG empty is the named boolean type YANGEmpty. Two places in ygot's renderer
+// meet it inside a union: (1) jsonValue's wrapper-union branch must give it the empty-leaf
+// rendering ([null] in RFC 7951 JSON), like the simplified-union arm does; (2) no unchecked
+// assertion to the predeclared type bool may be applied to a value that is only known to be of
+// *kind* Bool — for YANGEmpty it panics.
+func ruleUnionEmpty(c *Ctx, r *Report) {
+	r.Rule("R-UNION-EMPTY", "ygot.jsonValue's wrapper-union branch tests the unwrapped value for the YANGEmpty type (EmptyTypeName) before the generic scalar rendering, and ygot's renderer has no unchecked assertion to bool of a value known only by its reflect kind", 2)
+	if f := c.MustFunc(r, "ygot", "jsonValue"); f != nil {
+		info := f.Info()
+		ok, found := false, false
+		ast.Inspect(f.Decl.Body, func(x ast.Node) bool {
+			cc, isCC := x.(*ast.CaseClause)
+			if !isCC {
+				return true
+			}
+			wrapper := false
+			for _, e := range cc.List {
+				if len(CallsIn(info, e, P("util")+".IsValueInterfaceToStructPtr")) > 0 {
+					wrapper = true
+				}
+			}
+			if !wrapper {
+				return true
+			}
+			found = true
+			ast.Inspect(cc, func(y ast.Node) bool {
+				if id, isID := y.(*ast.Ident); isID && id.Name == "EmptyTypeName" {
+					ok = true
+				}
+				if se, isSel := y.(*ast.SelectorExpr); isSel && se.Sel.Name == "EmptyTypeName" {
+					ok = true
+				}
+				return true
+			})
+			return false
+		})
+		if !found {
+			r.Und("ygot.jsonValue:wrapper-union:empty", c.Pos(f.Decl.Pos()), "wrapper-union branch not found")
+		} else {
+			r.Check(ok, "ygot.jsonValue:wrapper-union:empty", c.Pos(f.Decl.Pos()), "wrapper-union branch handles the empty type",
+				"jsonValue's wrapper-union branch does not test for the YANGEmpty type: an empty member of a wrapper union is rendered as true instead of [null]")
+		}
+	}
+	n := 0
+	for _, f := range c.funcsInScope(func(s string) bool { return s == "ygot/render.go" }, libPkgs) {
+		info := f.Info()
+		pm := c.parentMap(f.File)
+		ast.Inspect(f.Decl.Body, func(x ast.Node) bool {
+			ta, ok := x.(*ast.TypeAssertExpr)
+			if !ok || ta.Type == nil {
+				return true
+			}
+			tv, ok := info.Types[ta.Type]
+			if !ok || tv.Type == nil || tv.Type.String() != "bool" {
+				return true
+			}
+			n++
+			checked := false
+			if as, ok := pm[ta].(*ast.AssignStmt); ok && len(as.Lhs) == 2 {
+				checked = true
+			}
+			if vs, ok := pm[ta].(*ast.ValueSpec); ok && len(vs.Names) == 2 {
+				checked = true
+			}
+			r.Check(checked, fmt.Sprintf("%s:assert-bool#%d", f.Name, n), c.Pos(ta.Pos()), "comma-ok assertion",
+				f.Name+" asserts "+types.ExprString(ta)+" unchecked: a value of the named type YANGEmpty has kind Bool but is not a bool, so the assertion panics (an empty member in a leaf-list of wrapper unions)")
+			return true
+		})
+	}
+	if n == 0 {
+		r.OK("ygot/render.go:assert-bool", "-", "no assertion to bool in the renderer")
+	}
+}
